@@ -178,6 +178,7 @@ def cyl_reference(o, d, shape, rmin, rmax, height, period, step, delta=DELTA):
     dr = (rmax - rmin) / nr
     dz = height / nz
     dphi = period / nphi
+    phi_slack = abs(360.0 - round(360.0 / period) * period)        # degrees
     rin_p = rmin + EPS_CELL * dr
     rout_p = rmax - EPS_CELL * dr
     h_p = height - EPS_CELL * dz
@@ -247,9 +248,13 @@ def cyl_reference(o, d, shape, rmin, rmax, height, period, step, delta=DELTA):
         ph = np.rad2deg(np.arctan2(py, px))
         with np.errstate(divide="ignore", invalid="ignore", over="ignore"):
             dph = np.rad2deg(np.minimum(delta / np.maximum(r, 1e-300), 1.0))
+        # a period that is only approximately a fraction of 360 degrees (the constructor accepts 360/period within 1e-3 of
+        # an integer) does not tile the circle: where the images of a cell boundary lie is then defined only up to the
+        # mismatch |360 - n*period|, which is added to the ambiguity of the owner (zero for an exact fraction)
+        dph = dph + phi_slack
         dph = np.minimum(dph, 0.49 * dphi)
-        ip0 = (np.floor(np.mod(ph - dph, period) / dphi).astype(int)) % nphi
-        ip1 = (np.floor(np.mod(ph + dph, period) / dphi).astype(int)) % nphi
+        ip0 = (np.floor(np.mod(ph + 360.0 - dph, period) / dphi).astype(int)) % nphi
+        ip1 = (np.floor(np.mod(ph + 360.0 + dph, period) / dphi).astype(int)) % nphi
     else:
         ip0 = ip1 = np.zeros_like(ir0)
 
@@ -314,6 +319,7 @@ def cyl_reference(o, d, shape, rmin, rmax, height, period, step, delta=DELTA):
     skippable = (pskip & (plen > 0)).any(axis=1)
     return {"L_lo": L_lo, "L_hi": L_hi, "chord_lo": chord_lo, "chord_hi": chord_hi, "dt": dt,
             "skippable": skippable, "kmax": nint.max(axis=1), "nint": nint, "pieces": npieces, "ambig": ambig,
+            "phi_slack_m": float(rmax * np.deg2rad(phi_slack)),
             "chord_events": chord_ev, "chord_lo_geo": chord_lo_geo, "events": T, "seg_inside": inside_run, "seg_piece": pid}
 
 
